@@ -556,6 +556,9 @@ func NewEthernetSegmentIdentifierFromNative(a *bgp.EthernetSegmentIdentifier) (*
 }
 
 func unmarshalESI(a *api.EthernetSegmentIdentifier) (*bgp.EthernetSegmentIdentifier, error) {
+	if a == nil {
+		return nil, errors.New("ethernet segment identifier is nil")
+	}
 	return &bgp.EthernetSegmentIdentifier{
 		Type:  bgp.ESIType(a.Type),
 		Value: a.Value,
